@@ -83,6 +83,9 @@ def run_seeded(names=None, runs=None):
         if not os.path.exists(os.path.join(d, "patch.diff")):
             continue
         meta = json.load(open(os.path.join(d, "meta.json")))
+        if meta.get("superseded_by_fix"):
+            print("seeded %-12s SKIPPED (harmless since repository fix %s, kept as documentation)" % (name, meta["superseded_by_fix"]))
+            continue
         prop = meta.get("property") or name.split("_")[-1]
         tmp = tempfile.mkdtemp(prefix="verif-seeded-")
         try:
